@@ -111,13 +111,15 @@ static int call_ref(char *d, size_t n, const char *fmt, int type, Val v, int ns,
 }
 
 #define MAXSIG 16384
+static const char *g_prop;
 static char sigs[MAXSIG][160], sigcase[MAXSIG][64]; static long sigcnt[MAXSIG]; static int nsig; static long n_calls, n_viol, n_formats, n_float_tol;
 static void report(const char *entry, const char *what, const char *cls, const char *cs) {
-    char sig[160]; snprintf(sig, sizeof sig, "C11|%s|%s|%s", entry, what, cls); n_viol++;
+    char sig[160]; snprintf(sig, sizeof sig, "%s|%s|%s|%s", g_prop, entry, what, cls); n_viol++;
     for (int i = 0; i < nsig; i++) if (!strcmp(sigs[i], sig)) { sigcnt[i]++; return; }
     if (nsig < MAXSIG) { strcpy(sigs[nsig], sig); strncpy(sigcase[nsig], cs, 63); sigcnt[nsig] = 1; nsig++; }
 }
 static int verbose, only_entry = -1; static long only_dmax = -1;
+/* C11_PROP=C01: the same enumeration used as a memory-safety sweep (only stores beyond dmax are judged) */
 static const char *ENT[] = { "sprintf_s", "snprintf_s", "fprintf_s", "printf_s", "vsprintf_s", "vsnprintf_s", "vfprintf_s", "vprintf_s" };
 
 /* float comparison: same layout class and value within one unit of the last printed digit */
@@ -180,6 +182,9 @@ static void one(const char *fmt, int type, Val v, int ns, int s1, int s2, int is
             rr[hist] = r; memcpy(out2[hist], dest, 700); out2[hist][699] = 0;
             if (verbose) printf("entry %s dmax=%zu hist=%d: ret=%d handler=%d crashed=%d out=\"%.80s\"   libc: n=%d \"%.80s\"\n", ENT[entry], dmax, hist, r, h_n, crashed, r >= 0 || IS_STREAM(entry) ? dest : "(cleared)", n, ref);
             if (crashed) { report(ENT[entry], "crash", cls, cs); return; }
+            if (!IS_STREAM(entry)) { int over = 0; for (size_t k = dmax; k < dmax + 200 && k < sizeof dest; k++) if ((unsigned char)dest[k] != 0x55) over = 1;
+                if (over) { report(ENT[entry], "write-beyond-dmax", cls, cs); break; } }
+            if (strcmp(g_prop, "C11")) break;            /* memory-safety sweep: nothing else is judged */
             if (hist == 1) { done2 = 1; break; }
             int fits = IS_STREAM(entry) || (size_t)n < dmax;
             if (fits) {
@@ -201,7 +206,7 @@ static void one(const char *fmt, int type, Val v, int ns, int s1, int s2, int is
 }
 
 int main(int argc, char **argv) {
-    setlocale(LC_ALL, "C.UTF-8");
+    setlocale(LC_ALL, "C.UTF-8"); g_prop = getenv("C11_PROP") ? getenv("C11_PROP") : "C11";
     res = fdopen(dup(1), "w"); so_fd = memfd_create("stdout", 0); if (!res || so_fd < 0 || dup2(so_fd, 1) < 0) return 2;
     setvbuf(res, NULL, _IOLBF, 0);
     sf_fd = memfd_create("stream", 0); sfp = fdopen(sf_fd, "w"); if (!sfp) return 2;
